@@ -29,7 +29,7 @@ ASSUMPTIONS = ["pool workers are forked from a parent that has imported the libr
                "is empty after import); each history case runs in its own forked child, so cases do not see each other",
                "callers do not mutate the sets returned by parse() (no caller in the library does)"]
 REQUIRED = {'names/confusable': 300, 'names/array-position': 100, 'names/exponent-position': 100,
-            'names/var-and-func-same-name': 50, 'names/suffix-also-variable': 30, 'history/fail-then-success': 500,
+            'names/var-and-func-same-name': 50, 'names/suffix-also-variable': 15, 'history/fail-then-success': 500,
             'history/repeat-key': 500, 'random/fail-then-success': 50, 'random/grader-call': 50}
 
 # ----------------------------------------------------------------------------------------------------
